@@ -455,6 +455,67 @@ k2_p1 = ${ PUSH(t) ~ (PUSH("a") ~ POP ~ POP ~ "y") }
 k2_p2 = ${ PUSH(t) ~ (PEEK ~ PEEK) }
 '''
 STK_CHOICES = {"k0": 4, "k1": 5, "k2": 3}
+STACK_FAMILIES = {"stk": STK_CHOICES}     # gid -> {choice rule: arity}; alternatives-as-rules are <rule>_p<j>
+
+
+# A branch that FAILS AFTER POPPING AND PUSHING (same or greater stack height, other content), then a stack-READING
+# alternative that must be the first match, then a later alternative that also matches the input (overlap); fillers
+# never match.  (n, index of the failing branch, of the reading one, of the overlapping one, variant)
+STP_CONFIGS = [(3, 0, 1, 2, 0), (3, 0, 1, 2, 1), (5, 1, 3, 4, 0), (5, 0, 1, 4, 1), (6, 2, 3, 5, 2), (12, 0, 10, 11, 0),
+               (13, 2, 7, 12, 1), (13, 0, 1, 2, 2), (14, 0, 12, 13, 0), (16, 3, 9, 15, 1)]
+STP_RAW_CONFIGS = [c for c in STP_CONFIGS if c[0] <= 12]
+
+
+def stp_name(cfg):
+    return f"kp{cfg[0]}_{cfg[1]}_{cfg[2]}v{cfg[4]}"
+
+
+def stp_alts(cfg):
+    """pest text and raw node of every alternative."""
+    n, p, q, r, v = cfg
+    fail = [('(POP ~ PUSH("b") ~ "!")', ("seq", "0", [("pop",), ("push", S("b")), S("!")])),
+            ('(DROP ~ PUSH("ab") ~ "!")', ("seq", "0", [("drop",), ("push", S("ab")), S("!")])),
+            ('(POP ~ PUSH("b") ~ PUSH("?") ~ "!")', ("seq", "0", [("pop",), ("push", S("b")), ("push", S("?")), S("!")]))][v]
+    read = [('(PEEK ~ "b?")', ("seq", "0", [("peek",), S("b?")])),
+            ('(POP ~ "b?")', ("seq", "0", [("pop",), S("b?")])),
+            ('(PEEK_ALL ~ "b?")', ("seq", "0", [("peekall",), S("b?")]))][v]
+    out = []
+    for k in range(n):
+        if k == p:
+            out.append(fail)
+        elif k == q:
+            out.append(read)
+        elif k == r:
+            out.append(('"ab?"', S("ab?")))
+        else:
+            out.append((f'"z{k}"', S(f"z{k}")))
+    return out
+
+
+def stack_pop_push_derived():
+    lines = []
+    fam = {}
+    for cfg in STP_CONFIGS:
+        name, alts = stp_name(cfg), stp_alts(cfg)
+        fam[name] = cfg[0]
+        lines.append(f'{name} = {{ PUSH("a") ~ (' + " | ".join(a for a, _ in alts) + ") }")
+        for j, (a, _) in enumerate(alts):
+            lines.append(f'{name}_p{j} = {{ PUSH("a") ~ {a} }}')
+    STACK_FAMILIES["stp"] = fam
+    return [{"gid": "stp", "text": "\n".join(lines) + "\n", "designed": "stack"}]
+
+
+def stack_pop_push_raw():
+    rules = [ws_rule()]
+    fam = {}
+    for cfg in STP_RAW_CONFIGS:
+        name, alts = stp_name(cfg), stp_alts(cfg)
+        fam[name] = cfg[0]
+        rules.append(rule(name, ("seq", "0", [("push", S("a")), ("choice", [nd for _, nd in alts])])))
+        for j, (_, nd) in enumerate(alts):
+            rules.append(rule(f"{name}_p{j}", ("seq", "0", [("push", S("a")), nd])))
+    STACK_FAMILIES["stpr"] = fam
+    return [dict(gid="stpr", rules=rules, skipped=WS_SKIP, designed="stack")]
 
 
 def counted_derived():
